@@ -193,6 +193,28 @@ Next == /\\ ~done /\\ done' = TRUE
                     ops.append(op("inject", kind="mpc", topic=topic, **{"from": o}))
                 ops.append(op("step", c=1, label="be", expect="ret"))
             scs.append(scenario(ops, membership=mp, participants=parts, dup=parts, threshold=len(parts) - 1, self_=self_))
+            # the SAME Scheme serves a second session after the application's membership has changed (same nodes, parties permuted): the
+            # translation follows the membership of the session, not the one of an earlier session
+            if not cse["dup"] and (i % 5 == 0 or tr == "thorough"):
+                vals = sorted(set(mp.values()))
+                if len(vals) >= 2:
+                    perm = dict(zip(vals, vals[1:] + vals[:1]))
+                    mp2 = {k: perm[v] for k, v in mp.items()}
+                    ops2 = [dict(o) for o in ops]
+                    second = []
+                    for o in ops:
+                        o2 = dict(o)
+                        if "c" in o2:
+                            o2["c"] = 2
+                        if o2.get("e") == "emit":
+                            o2["to"] = 0 if o["to"] == 0 else perm[o["to"]]
+                        if o2.get("e") == "call":
+                            o2["topic"] = topic if kind == "kg" else "T2"
+                        if o2.get("e") == "inject" and kind == "sg":
+                            o2["topic"] = "T2"
+                        second.append(o2)
+                    ops2.append(op("setmap", map=mp2))
+                    scs.append(scenario(ops2 + second, membership=mp, participants=parts, dup=parts, threshold=len(parts) - 1, self_=self_))
     return scs, len(cases), r
 
 
